@@ -300,7 +300,13 @@ fn run_parent(prop: &str, tier: Tier) -> i32 {
     failures.sort_by_key(|f| f.case.to_string().len());
     for f in &failures {
         let p = runner::write_replay(f);
-        violations.push((f.failure.message.clone(), p.display().to_string()));
+        if f.failure.kind == "error" {
+            // the harness itself failed (a panic in the check's own code, a port that could not be bound, ...):
+            // that says nothing about the property, the run counts as broken (exit 2)
+            broken.push(format!("harness error: {} (case saved as {})", f.failure.message.chars().take(300).collect::<String>(), p.display()));
+        } else {
+            violations.push((f.failure.message.clone(), p.display().to_string()));
+        }
     }
     for (id, n) in &total.kf_hits {
         if let Some(k) = kf.findings.iter().find(|k| &k.id == id) {
